@@ -11,7 +11,7 @@ from .. import shimlab as S
 ID = "C20"
 LEVEL = "exploration"
 RULE = ("two (quick) / three (thorough) groups of 3 identical files; every subset of the droppable members locked by a "
-        "foreign process holding fcntl write locks or read (shared) locks on the whole file, or exclusive locks on a byte range (first byte, last byte, at the end of the data, far beyond it) x op {remove, link, link --soft, dedupe, "
+        "foreign process holding fcntl write locks or read (shared) locks on the whole file (classic per-process locks and open-file-description locks, F_OFD_SETLK), or exclusive locks on a byte range (first byte, last byte, at the end of the data, far beyond it) x op {remove, link, link --soft, dedupe, "
         "move, move to a directory on another mount point known to fclones (loop-mounted ext4 image)} x {default, --no-lock}; and a group in which the locked file has three hard-linked names among the droppable members (report made with and without -H, lock taken through each name). and the same run by an unprivileged user (setpriv, uid 65534) with the locked members read-only (0444) or writable for that user. Every run is traced by the interposer: no rename / link / unlink / truncate may touch a locked file even temporarily. Oracle (a lock is on the file: every name of a locked inode counts as locked): locked members keep inode, bytes and path and are named in a warning; "
         "every other droppable member is processed; with --no-lock every droppable member is processed. "
         "Non-trivial = at least one member locked; distinct by (subset, lock type, op, flag).")
@@ -27,6 +27,11 @@ for p in sys.argv[2:]:
     size = os.fstat(fd).st_size
     if mode in ("write", "read"):
         fcntl.lockf(fd, fcntl.LOCK_EX if mode == "write" else fcntl.LOCK_SH)
+    elif mode in ("ofd_write", "ofd_read"):
+        # open-file-description lock (F_OFD_SETLK): owned by the descriptor, reported with l_pid = -1
+        import struct
+        fcntl.fcntl(fd, fcntl.F_OFD_SETLK, struct.pack("hhqqi", fcntl.F_WRLCK if mode == "ofd_write" else fcntl.F_RDLCK,
+                                                       os.SEEK_SET, 0, 0, 0))
     elif mode == "range_first_byte":
         fcntl.lockf(fd, fcntl.LOCK_EX, 1, 0, os.SEEK_SET)
     elif mode == "range_last_byte":
@@ -74,9 +79,10 @@ def cases(tier, seed):
                         out.append({"ngroups": ng, "locked": list(sub), "mode": mode, "op": op, "no_lock": nolock,
                                     "droppable": droppable})
     # byte-range locks (a database locking single bytes, possibly beyond the end of the data)
-    for mode in ("range_first_byte", "range_last_byte", "range_at_eof", "range_far_beyond_eof"):
+    # ... and open-file-description locks (fcntl F_OFD_SETLK): they conflict with classic locks of other processes
+    for mode in ("range_first_byte", "range_last_byte", "range_at_eof", "range_far_beyond_eof", "ofd_write", "ofd_read"):
         for sub in (["r/b/g0_1"], ["r/b/g0_1", "r/c/g1_2"]):
-            for op in ("remove", "link", "softlink", "move"):
+            for op in ("remove", "link", "softlink", "move") + (("dedupe", "move_other_mount") if mode.startswith("ofd") else ()):
                 out.append({"ngroups": 2, "locked": sub, "mode": mode, "op": op, "no_lock": False,
                             "droppable": ["r/b/g0_1", "r/b/g1_1", "r/c/g0_2", "r/c/g1_2"]})
     # a locked file that has several names among the droppable members (hard links; report with and without -H)
